@@ -1,6 +1,6 @@
 \* as coded; the failing job is in the body step that produces the fed-back output o1
 CONSTANTS NI = 1  Counts = {1, 2, 3}  Outs = {"o1", "o2"}  Scatter = FALSE
-          FailOuts = {"o1"}  FailIters = {0, 1, 2}  WithOutputs = TRUE  CancelReader = TRUE  TMStops = FALSE
+          FailOuts = {"o1"}  FailIters = {0, 1, 2}  WOSet = {TRUE, FALSE}  CancelReader = TRUE  TMStops = FALSE
 SPECIFICATION FairSpec
 INVARIANT TypeOK
 INVARIANT FailureMeansRaise
